@@ -28,7 +28,7 @@ ASSUMPTIONS = ["Redis and RabbitMQ are wire-level fakes speaking the real protoc
                "argument payloads starting with the reserved bucket marker are excluded (per the statement)",
                "inputs a broker refuses loudly at enqueue are counted under refused_inputs, not judged"]
 EVAL_COUNTER = "items_judged"
-REQUIRED = ["items_judged", "jobs_roundtripped", "bucket_transport", "codec_roundtrips", "keys_checked", "durations_over_10y", "reused_bucket_ids", "slow_argument_store_runs", "job_twins_judged", "flushes_judged", "default_id_retries"]
+REQUIRED = ["runs_with_free_text_bucket_ids", "items_judged", "jobs_roundtripped", "bucket_transport", "codec_roundtrips", "keys_checked", "durations_over_10y", "reused_bucket_ids", "slow_argument_store_runs", "job_twins_judged", "flushes_judged", "default_id_retries"]
 CASE_TIMEOUT = 150
 
 NAME_FIRST = string.ascii_letters + "_"
@@ -52,7 +52,7 @@ def gen_cases(tier, seed):
     for i in range({"quick": 6, "thorough": 30}[tier]):
         cases.append({"type": "jobtwins", "kind": ["mem", "redis", "rabbit"][i % 3], "bucket": ["mem", "redis"][(i // 3) % 2], "seed": rnd.randrange(10**6)})
     for i in range({"quick": 6, "thorough": 60}[tier]):
-        cases.append({"type": "reuse", "kind": ["mem", "redis", "rabbit"][i % 3], "seed": rnd.randrange(10**6), "slow": i % 2 == 0})
+        cases.append({"type": "reuse", "kind": ["mem", "redis", "rabbit"][i % 3], "seed": 2 * rnd.randrange(10**5) + ((i // 3) % 2 if i >= 3 else 1), "slow": i % 2 == 0})
     return cases
 
 
@@ -577,11 +577,14 @@ async def reuse_case(loop, case, out, stats, fps):
         worker = w.worker([r], tasks_limit=3, graceful_shutdown_time=3.0, handle_signals=[__import__("signal").SIGUSR1])
         task = loop.create_task(run_worker(w, worker, until=lambda: False, horizon=30.0, poll=0.1))
         sent = []
-        ids = [f"shared-{i}" for i in range(2)]
+        # (bucket ids are free text: ids an application derives from its own data - other scripts, quotes, separators)
+        HOSTILE_IDS = ["shared-0", "shared-1", "p\u00e4yload-42", "\u043e\u0442\u0447\u0451\u0442", "\u5831\u544a-7", 'say "hi"', "back\\slash", "line\nbreak", "user:42/report.json", " spaced id ", "tab\there", "{brace}"]
+        ids = rnd.sample(HOSTILE_IDS, 2) if case["seed"] % 2 else ["shared-0", "shared-1"]
+        stats["runs_with_free_text_bucket_ids" if case["seed"] % 2 else "runs_with_plain_bucket_ids"] += 1
         for i in range(rnd.randint(4, 8)):
             args = {"n": i, "v": rjson(rnd, 2), "who": rnd.choice(["alice", "bob", "carol"])}
             aid = rnd.choice(ids)
-            job = Job("echo", id_=f"r{i}", args=args, args_id=aid, result_id="res-" + aid, use_args_bucketer=True, store_result=True, _connection=w.conn)
+            job = Job("echo", id_=f"r{i}", args=args, args_id=aid, result_id=f"res-{ids.index(aid)}", use_args_bucketer=True, store_result=True, _connection=w.conn)  # (result ids are validated, argument ids are not)
             await job.enqueue()
             sent.append((job, args))
             for _ in range(200):
